@@ -435,6 +435,11 @@ class DataFile:
       # skip user data and reserved blocks
       return
 
+    if tti.CF == 0x01:
+      # skip translator's comments, which are not intended for transmission
+      LOGGER.debug("Skipping comment block")
+      return
+
     if not self.is_in_extension:
       self.tti_tf = b''
 
